@@ -39,6 +39,8 @@ fn main() {
         "nest" => format!("{}Int32Type{}", "SetType(".repeat(n), ")".repeat(n)),
         "nestbad" => format!("{}Int32Type,Int32Type{}", "SetType(".repeat(n), ")".repeat(n)),
         "nestopen" => "SetType(".repeat(n),
+        "expo" => "ListType(Int32Type,".repeat(n),
+        "expo2" => format!("{}{}", "ListType(Int32Type,".repeat(n), ")".repeat(n)),
         _ => mode.to_string(),
     };
     let t0 = std::time::Instant::now();
